@@ -315,9 +315,58 @@ fn composite_case(gid: u32, gs: &[GSpec]) -> String {
         },
         Err(_) => "noinst".into(),
     };
+    // caller-supplied scratch memory: the advertised size must do at every misalignment, anything below the payload
+    // (advertised size minus the 4 bytes of alignment slack) must be InsufficientMemory, never a panic
+    let sz0 = g.draw_memory_size(Hinting::None);
+    let sz1 = g.draw_memory_size(Hinting::Embedded);
+    let mut backing = vec![0u8; sz0.max(sz1) + 16];
+    let mut enough = true;
+    let mut too_small = true;
+    let mut detail = String::new();
+    for style in [PathStyle::FreeType, PathStyle::HarfBuzz] {
+        for off in 0..4usize {
+            let r = g.draw(
+                DrawSettings::unhinted(Size::new(16.0), LocationRef::default()).with_path_style(style).with_memory(Some(&mut backing[off..off + sz0])),
+                &mut pen,
+            );
+            if matches!(r, Err(DrawError::InsufficientMemory)) {
+                enough = false;
+                detail = format!("advertised {sz0} style={style:?} off={off}");
+            }
+            // (the HarfBuzz-style scaler carves fewer slices than the size accounts for: only "enough" applies)
+            if sz0 > 4 && matches!(style, PathStyle::FreeType) {
+                for cut in [sz0 - 5, sz0 / 2, 0] {
+                    let r = g.draw(
+                        DrawSettings::unhinted(Size::new(16.0), LocationRef::default()).with_path_style(style).with_memory(Some(&mut backing[off..off + cut])),
+                        &mut pen,
+                    );
+                    if !matches!(r, Err(DrawError::InsufficientMemory)) {
+                        too_small = false;
+                        detail = format!("len {cut} of {sz0} style={style:?} off={off}: {:?}", r.map(|_| ()));
+                    }
+                }
+            }
+        }
+    }
+    if let Ok(inst) = HintingInstance::new(&outlines, Size::new(16.0), LocationRef::default(), HintingOptions { engine: Engine::Interpreter, target: Target::Mono }) {
+        for off in 0..4usize {
+            let r = g.draw(DrawSettings::hinted(&inst, false).with_memory(Some(&mut backing[off..off + sz1])), &mut pen);
+            if matches!(r, Err(DrawError::InsufficientMemory)) {
+                enough = false;
+                detail = format!("advertised {sz1} hinted off={off}");
+            }
+            if sz1 > 4 {
+                let r = g.draw(DrawSettings::hinted(&inst, false).with_memory(Some(&mut backing[off..off + sz1 - 5])), &mut pen);
+                if !matches!(r, Err(DrawError::InsufficientMemory)) {
+                    too_small = false;
+                    detail = format!("len {} of {sz1} hinted off={off}: {:?}", sz1 - 5, r.map(|_| ()));
+                }
+            }
+        }
+    }
     format!(
-        "ok p={} c={} ms={} mo={} ds={} h={} draw={d1},{d2}",
-        c.points, c.contours, c.max_simple_points, c.max_other_points, c.max_component_delta_stack, c.has_hinting as u8
+        "ok p={} c={} ms={} mo={} ds={} h={} sz={sz0},{sz1} draw={d1},{d2} mem={}{} {detail}",
+        c.points, c.contours, c.max_simple_points, c.max_other_points, c.max_component_delta_stack, c.has_hinting as u8, enough as u8, too_small as u8
     )
 }
 
@@ -994,6 +1043,609 @@ fn gen_loop_case(rng: &mut Rng, i: usize) -> Synth {
     sp
 }
 
+// ------------------------------------------------------------------------------------------------
+// (1e) programs over ALL data opcodes (Model/InterpData.lean)
+// ------------------------------------------------------------------------------------------------
+
+/// pushes any i32 (PUSHW pieces combined with DUP ADD doublings when it does not fit 16 bits)
+fn push_i32(out: &mut Vec<u8>, v: i64) {
+    let v = v.clamp(i32::MIN as i64, i32::MAX as i64);
+    if (-32768..=32767).contains(&v) {
+        push_val(out, v as i32);
+        return;
+    }
+    // v = hi * 65536 + lo with lo in -32768..32767
+    let lo = ((v + 32768).rem_euclid(65536)) - 32768;
+    let hi = (v - lo) / 65536; // in -32768..=32768
+    let hi = hi.clamp(-32768, 32767);
+    push_w(out, hi as i32);
+    for _ in 0..16 {
+        out.push(OP_DUP);
+        out.push(0x60);
+    }
+    push_val(out, lo as i32);
+    out.push(0x60);
+}
+
+/// `DUP; push c; <compare>; IF; 0x28; EIF`: makes the value on top of the stack observable (the unassigned opcode
+/// 0x28 is UnhandledOpcode at a pc that depends on the comparison).  `hint` = roughly the value expected there:
+/// the thresholds are taken next to it, so that an off-by-one or a wrong scale factor changes the outcome.
+fn observe(rng: &mut Rng, out: &mut Vec<u8>, hint: Option<i64>) {
+    let n = if hint.is_some() { 2 + rng.below(2) } else { 1 + rng.below(2) };
+    for _ in 0..n {
+        out.push(OP_DUP);
+        let c: i64 = match (hint, rng.below(10)) {
+            (Some(h), 0) => h,
+            (Some(h), 1) => h + 1,
+            (Some(h), 2) => h - 1,
+            (Some(h), 3) => h + h / 100 + 1,
+            (Some(h), 4) => h - h / 100 - 1,
+            (Some(h), 5) => h + *rng.pick(&[16i64, 32, 48, 64, -16, -32, -48, -64]),
+            (Some(h), 6) => h / 2,
+            (_, 7) => 0,
+            (_, 8) => *rng.pick(&[64i64, -64, 40, 16, 35, 1024, 17]),
+            _ => small(rng) as i64,
+        };
+        push_i32(out, c);
+        // after an equality test with the hint itself both outcomes are informative; otherwise order tests
+        out.push(*rng.pick(&[0x50u8, 0x51, 0x52, 0x53, 0x54, 0x55, 0x50, 0x52]));
+        out.push(OP_IF);
+        out.push(0x28);
+        out.push(OP_EIF);
+    }
+}
+
+/// an operand for arithmetic: small, 26.6-ish, or extreme; returns the value pushed
+fn push_operand(rng: &mut Rng, out: &mut Vec<u8>) -> i64 {
+    let v: i64 = match rng.below(14) {
+        0 => 0,
+        1 => 64,
+        2 => -64,
+        3 => 0x7FFF_0000 + rng.range(0, 2),
+        4 => i32::MIN as i64,
+        5 => rng.range(-32768, 32767),
+        6 | 7 => rng.range(-200, 200),
+        8 | 9 => rng.range(-20000, 20000),
+        10 => rng.range(-2_000_000, 2_000_000),
+        _ => small(rng) as i64,
+    };
+    push_i32(out, v);
+    v
+}
+
+/// index around the boundary of a table / zone of `n` entries
+fn edge_ix(rng: &mut Rng, n: i32) -> i32 {
+    match rng.below(6) {
+        0 => n,
+        1 | 2 => n - 1,
+        3 => n + 1,
+        4 => 0,
+        _ => point_ix(rng, n),
+    }
+}
+
+fn wrap32(v: i64) -> i64 {
+    v as i32 as i64
+}
+
+fn gen_data_block(rng: &mut Rng, out: &mut Vec<u8>, ntok: usize, zone_pts: i32, other_pts: i32, n_cvt: i32, n_sto: i32, in_glyph: bool) {
+    // a point index: around this zone's size, around the other zone's size (the zone pointers may differ), or random
+    let pix = |rng: &mut Rng| -> i32 {
+        match rng.below(6) {
+            0 | 1 => edge_ix(rng, zone_pts),
+            2 => edge_ix(rng, other_pts),
+            _ => point_ix(rng, zone_pts),
+        }
+    };
+    for _ in 0..ntok {
+        match rng.below(112) {
+            // ---- storage
+            0..=7 => {
+                let loc = edge_ix(rng, n_sto);
+                push_val(out, loc);
+                if rng.chance(1, 2) {
+                    let v = push_operand(rng, out);
+                    out.push(0x42); // WS
+                    if rng.chance(1, 2) {
+                        push_val(out, loc);
+                        out.push(0x43);
+                        observe(rng, out, Some(v));
+                    }
+                } else {
+                    out.push(0x43); // RS
+                    observe(rng, out, None);
+                }
+            }
+            // ---- cvt
+            8..=17 => {
+                let loc = edge_ix(rng, n_cvt);
+                push_val(out, loc);
+                match rng.below(4) {
+                    0 | 1 => {
+                        let scaled = rng.chance(1, 2);
+                        let v = push_operand(rng, out);
+                        out.push(if scaled { 0x70 } else { 0x44 }); // WCVTF / WCVTP
+                        if rng.chance(2, 3) {
+                            push_val(out, loc);
+                            out.push(0x45);
+                            // 16 ppem at 1000 upem: scale 67109 / 65536
+                            observe(rng, out, Some(if scaled { wrap32((v * 67109 + 32768) >> 16) } else { v }));
+                        }
+                    }
+                    _ => {
+                        out.push(0x45); // RCVT
+                        observe(rng, out, None);
+                    }
+                }
+            }
+            // ---- arithmetic / logic
+            18..=31 => {
+                let op = *rng.pick(&[
+                    0x60u8, 0x61, 0x62, 0x63, 0x62, 0x63, 0x64, 0x65, 0x66, 0x67, 0x8B, 0x8C, 0x50, 0x51, 0x52, 0x53, 0x54, 0x55, 0x5A, 0x5B,
+                    0x5C, 0x56, 0x57, 0x68, 0x69, 0x6A, 0x6B,
+                ]);
+                let unary = matches!(op, 0x64..=0x67 | 0x5C | 0x56 | 0x57 | 0x68..=0x6B);
+                let a = push_operand(rng, out);
+                let mut b = 0i64;
+                if !unary {
+                    if op == 0x62 && rng.chance(1, 5) {
+                        push_val(out, 0); // DIV by zero
+                    } else {
+                        b = push_operand(rng, out);
+                    }
+                }
+                out.push(op);
+                let hint = match op {
+                    0x60 => Some(wrap32(a + b)),
+                    0x61 => Some(wrap32(a - b)),
+                    0x62 if b != 0 => Some(wrap32((a as i128 * 64 / b as i128) as i64)),
+                    0x63 => Some(wrap32((a as i128 * b as i128 / 64) as i64)),
+                    0x64 => Some(wrap32(a.abs())),
+                    0x65 => Some(wrap32(-a)),
+                    0x66 => Some(a & !63),
+                    0x67 => Some(wrap32(a + 63) & !63),
+                    0x8B => Some(a.max(b)),
+                    0x8C => Some(a.min(b)),
+                    0x68..=0x6B => Some(wrap32(a + 32) & !63),
+                    _ => None,
+                };
+                observe(rng, out, hint);
+            }
+            // ---- round state
+            32..=38 => {
+                match rng.below(3) {
+                    0 | 1 => {
+                        push_val(out, rng.below(256) as i32);
+                        out.push(*rng.pick(&[0x76u8, 0x77]));
+                    }
+                    _ => out.push(*rng.pick(&[0x18u8, 0x19, 0x3D, 0x7A, 0x7C, 0x7D])),
+                }
+                let v = if rng.chance(1, 2) { rng.range(-400, 400) } else { push_operand_value(rng) };
+                push_i32(out, v);
+                let op = *rng.pick(&[0x68u8, 0x69, 0x68, 0x56, 0x57, 0x6C]);
+                out.push(op);
+                observe(rng, out, if op == 0x56 || op == 0x57 { None } else { Some(v) });
+            }
+            // ---- zone / reference point registers
+            39..=45 => {
+                push_val(out, *rng.pick(&[0, 1, 0, 1, 0, 2, -1]));
+                out.push(*rng.pick(&[0x13u8, 0x14, 0x15, 0x16, 0x16]));
+            }
+            46..=49 => {
+                push_val(out, pix(rng));
+                out.push(*rng.pick(&[0x10u8, 0x11, 0x12]));
+            }
+            // ---- vectors
+            50..=54 => match rng.below(8) {
+                0..=2 => out.push(rng.below(6) as u8),
+                3 => out.push(0x0E),
+                4 => {
+                    out.push(*rng.pick(&[0x0Cu8, 0x0D]));
+                    observe(rng, out, Some(0));
+                    out.push(OP_POP);
+                    observe(rng, out, Some(0x4000));
+                }
+                5 => {
+                    // SPVFS / SFVFS: (0, 0) keeps the vector
+                    let zero = rng.chance(1, 2);
+                    push_val(out, if zero { 0 } else { small(rng) });
+                    push_val(out, if zero { 0 } else { 0x4000 });
+                    out.push(*rng.pick(&[0x0Au8, 0x0B]));
+                }
+                _ => {
+                    maybe_zones(rng, out);
+                    push_val(out, pix(rng));
+                    push_val(out, pix(rng));
+                    out.push(*rng.pick(&[0x06u8, 0x07, 0x08, 0x09, 0x86, 0x87]));
+                }
+            },
+            // ---- point getters
+            55..=61 => {
+                maybe_zones(rng, out);
+                if rng.chance(1, 2) {
+                    push_val(out, pix(rng));
+                    out.push(*rng.pick(&[0x46u8, 0x47]));
+                } else {
+                    push_val(out, pix(rng));
+                    push_val(out, pix(rng));
+                    out.push(*rng.pick(&[0x49u8, 0x4A]));
+                }
+                if rng.chance(5, 6) {
+                    out.push(OP_POP);
+                }
+            }
+            // ---- point movers
+            62..=81 => match { maybe_zones(rng, out); rng.below(9) } {
+                0 => {
+                    push_val(out, pix(rng));
+                    out.push(*rng.pick(&[0x2Eu8, 0x2F])); // MDAP
+                }
+                1 => {
+                    push_val(out, pix(rng));
+                    push_val(out, edge_ix(rng, n_cvt));
+                    out.push(*rng.pick(&[0x3Eu8, 0x3F])); // MIAP
+                }
+                2 => {
+                    push_val(out, pix(rng));
+                    out.push(0xC0 + rng.below(32) as u8); // MDRP
+                }
+                3 => {
+                    push_val(out, pix(rng));
+                    push_val(out, edge_ix(rng, n_cvt));
+                    out.push(0xE0 + rng.below(32) as u8); // MIRP
+                }
+                4 => {
+                    push_val(out, pix(rng));
+                    push_val(out, rng.range(-70, 70) as i32);
+                    out.push(*rng.pick(&[0x3Au8, 0x3B])); // MSIRP
+                }
+                5 => {
+                    push_val(out, pix(rng));
+                    push_val(out, pix(rng));
+                    out.push(0x27); // ALIGNPTS
+                }
+                6 => {
+                    push_val(out, pix(rng));
+                    out.push(0x29); // UTP
+                }
+                7 => {
+                    for _ in 0..5 {
+                        push_val(out, pix(rng));
+                    }
+                    out.push(0x0F); // ISECT
+                }
+                _ => {
+                    push_val(out, pix(rng));
+                    push_val(out, rng.range(-70, 70) as i32);
+                    out.push(0x48); // SCFS
+                }
+            },
+            // ---- measurements and information
+            82..=86 => {
+                let hint = match rng.below(5) {
+                    0 => {
+                        out.push(0x4B);
+                        Some(16)
+                    }
+                    1 => {
+                        out.push(0x4C);
+                        Some(1024)
+                    }
+                    2 => {
+                        let sel = *rng.pick(&[0, 1, 2, 3, 8, 0x40, 0x1FFF, -1, 32767, 0x100, 1, 33]);
+                        push_val(out, sel);
+                        out.push(0x88);
+                        Some(if sel & 1 != 0 { 40 } else { 0 })
+                    }
+                    3 => {
+                        out.push(0x91);
+                        None
+                    }
+                    _ => {
+                        out.push(0x92);
+                        None
+                    }
+                };
+                observe(rng, out, hint);
+            }
+            // ---- delta base / shift, DELTAC observed through RCVT
+            87..=92 => match rng.below(4) {
+                0 => {
+                    push_val(out, *rng.pick(&[9, 7, 0, 16, -1, 65536 + 9, 25]));
+                    out.push(0x5E);
+                }
+                1 => {
+                    push_val(out, *rng.pick(&[0, 3, 6, 7, -1, 2, 100]));
+                    out.push(0x5F);
+                }
+                _ => {
+                    let ix = edge_ix(rng, n_cvt);
+                    let n = 1 + rng.below(2) as i32;
+                    for _ in 0..n {
+                        push_val(out, *rng.pick(&[0x70, 0x7F, 0x78, 0x00, 0x60, 0xF0, 0x170, 0x97, 0x77]));
+                        push_val(out, ix);
+                    }
+                    push_val(out, n);
+                    out.push(*rng.pick(&[0x73u8, 0x74, 0x75, 0x73]));
+                    push_val(out, ix);
+                    out.push(0x45);
+                    let h = *rng.pick(&[0i64, 8, 64, -64, 16, -8]);
+                    observe(rng, out, Some(h));
+                }
+            },
+            // ---- INSTCTRL
+            93..=95 => {
+                push_val(out, *rng.pick(&[0, 1, 2, 4, 4, 3, -1]));
+                push_val(out, *rng.pick(&[1, 2, 3, 3, 0, 4, -1]));
+                out.push(0x8E);
+            }
+            // ---- value stack: distinct values, one stack opcode, then every element observed
+            96..=102 => {
+                let k = rng.below(5) as i32;
+                for j in 0..k {
+                    push_val(out, 100 + 10 * j + rng.below(3) as i32);
+                }
+                match rng.below(6) {
+                    0 | 1 => out.push(0x8A),
+                    2 => {
+                        push_val(out, rng.range(-1, 5) as i32);
+                        out.push(0x26);
+                    }
+                    3 => {
+                        push_val(out, rng.range(-1, 5) as i32);
+                        out.push(0x25);
+                    }
+                    4 => out.push(OP_SWAP),
+                    _ => out.push(OP_DUP),
+                }
+                // look at ONE element at a random depth (an observation that fires ends the program)
+                for _ in 0..rng.below(4) {
+                    out.push(OP_POP);
+                }
+                let h = 100 + 10 * rng.below(5) as i64;
+                observe(rng, out, Some(h));
+            }
+            // ---- setters no check depends on, and no-ops
+            103..=104 => {
+                let op = *rng.pick(&[0x1Au8, 0x1D, 0x1E, 0x1F, 0x7E, 0x85, 0x8D, 0x4F, 0x4D, 0x4E, 0x7F, 0x6D]);
+                if !matches!(op, 0x4D | 0x4E | 0x7F | 0x6D) && rng.chance(5, 6) {
+                    push_operand(rng, out);
+                }
+                out.push(op);
+            }
+            // ---- register chains: zone pointers that differ, a writer of rp0 / rp1 / rp2, then a reader
+            105..=109 => {
+                for z in [0x13u8, 0x14, 0x15] {
+                    if rng.chance(2, 3) {
+                        push_val(out, rng.below(2) as i32);
+                        out.push(z);
+                    }
+                }
+                for _ in 0..1 + rng.below(2) {
+                    // writers
+                    match rng.below(6) {
+                        0 => {
+                            push_val(out, pix(rng));
+                            out.push(*rng.pick(&[0x10u8, 0x11, 0x12]));
+                        }
+                        1 => {
+                            push_val(out, pix(rng));
+                            out.push(*rng.pick(&[0x2Eu8, 0x2F]));
+                        }
+                        2 => {
+                            push_val(out, pix(rng));
+                            push_val(out, point_ix(rng, n_cvt));
+                            out.push(*rng.pick(&[0x3Eu8, 0x3F]));
+                        }
+                        3 => {
+                            push_val(out, pix(rng));
+                            out.push(0xC0 + rng.below(32) as u8);
+                        }
+                        4 => {
+                            push_val(out, pix(rng));
+                            push_val(out, point_ix(rng, n_cvt));
+                            out.push(0xE0 + rng.below(32) as u8);
+                        }
+                        _ => {
+                            push_val(out, pix(rng));
+                            push_val(out, 8);
+                            out.push(*rng.pick(&[0x3Au8, 0x3B]));
+                        }
+                    }
+                }
+                // readers of rp0 (MDRP MIRP MSIRP ALIGNRP), rp1 / rp2 (IP SHP SHC SHZ)
+                match rng.below(8) {
+                    0 => {
+                        push_val(out, point_ix(rng, zone_pts));
+                        out.push(0xC0 + rng.below(32) as u8);
+                    }
+                    1 => {
+                        push_val(out, point_ix(rng, zone_pts));
+                        out.push(0x3C);
+                    }
+                    2 => {
+                        push_val(out, point_ix(rng, zone_pts));
+                        out.push(0x39);
+                    }
+                    3 | 4 => {
+                        push_val(out, point_ix(rng, zone_pts));
+                        out.push(*rng.pick(&[0x32u8, 0x33]));
+                    }
+                    5 => {
+                        push_val(out, 0);
+                        out.push(*rng.pick(&[0x34u8, 0x35]));
+                    }
+                    6 => {
+                        push_val(out, rng.below(2) as i32);
+                        out.push(*rng.pick(&[0x36u8, 0x37]));
+                    }
+                    _ => {
+                        push_val(out, point_ix(rng, zone_pts));
+                        push_val(out, 8);
+                        out.push(*rng.pick(&[0x3Au8, 0x3B]));
+                    }
+                }
+            }
+            // ---- backward compatibility switched by INSTCTRL in the glyph program, both IUPs, then a flag / shift opcode
+            110 if in_glyph => {
+                push_val(out, *rng.pick(&[0, 4, 0]));
+                push_val(out, 3);
+                out.push(0x8E);
+                if rng.chance(3, 4) {
+                    out.push(0x30);
+                }
+                if rng.chance(3, 4) {
+                    out.push(0x31);
+                }
+                match rng.below(4) {
+                    0 => {
+                        push_val(out, pix(rng));
+                        out.push(0x80);
+                    }
+                    1 => {
+                        let lo = pix(rng);
+                        push_val(out, lo);
+                        push_val(out, lo + rng.range(-1, 12) as i32);
+                        out.push(*rng.pick(&[0x81u8, 0x82]));
+                    }
+                    2 => {
+                        push_val(out, pix(rng));
+                        push_val(out, 16);
+                        out.push(0x38);
+                    }
+                    _ => {
+                        push_val(out, pix(rng));
+                        out.push(*rng.pick(&[0x32u8, 0x33]));
+                    }
+                }
+            }
+            // ---- a loop-carrying opcode in between
+            _ => gen_loop_block(rng, out, 1, zone_pts, n_cvt),
+        }
+    }
+}
+
+/// half of the time: zone pointers that may differ from each other
+fn maybe_zones(rng: &mut Rng, out: &mut Vec<u8>) {
+    if rng.chance(1, 2) {
+        for z in [0x13u8, 0x14, 0x15] {
+            if rng.chance(2, 3) {
+                push_val(out, rng.below(2) as i32);
+                out.push(z);
+            }
+        }
+    }
+}
+
+fn push_operand_value(rng: &mut Rng) -> i64 {
+    match rng.below(6) {
+        0 => 0,
+        1 => rng.range(-32768, 32767),
+        2 => 0x7FFF_0000 + rng.range(0, 2),
+        3 => i32::MIN as i64,
+        _ => rng.range(-2000, 2000),
+    }
+}
+
+/// programs over all data opcodes in fpgm / prep (not pedantic, twilight zone only) and in the glyph program
+/// (pedantic; copy-on-write cvt / storage; retained graphics state from prep)
+fn gen_data_case(rng: &mut Rng, i: usize) -> Synth {
+    let mut sp = Synth {
+        max_stack: *rng.pick(&[2u16, 8, 16, 64]),
+        n_funcs: 0,
+        n_idefs: *rng.pick(&[0u16, 0, 2]),
+        n_cvt: *rng.pick(&[0u16, 4, 8]),
+        n_pts: *rng.pick(&[3u16, 5, 9]),
+        max_storage: *rng.pick(&[0u16, 1, 4, 8]),
+        max_twilight: *rng.pick(&[0u16, 1, 4, 6]),
+        fpgm: vec![],
+        prep: vec![],
+        glyph: None,
+    };
+    let twi = sp.max_twilight as i32 + 4;
+    let gp = sp.n_pts as i32 + 4;
+    let cvt = sp.n_cvt as i32;
+    let sto = sp.max_storage as i32;
+    let keys: Vec<i32> = vec![0, 1, 2, 3];
+    if sp.n_idefs > 0 && rng.chance(1, 2) {
+        // IDEF for GETVARIATION / GETDATA (static font: both end in op_unknown)
+        let mut f = vec![];
+        push_val(&mut f, *rng.pick(&[0x91, 0x92]));
+        f.push(OP_IDEF);
+        push_val(&mut f, 7);
+        f.push(OP_ENDF);
+        sp.fpgm = f;
+    }
+    match i % 10 {
+        0..=3 => {
+            let mut g = vec![];
+            let n = 1 + rng.below(9) as usize;
+            gen_data_block(rng, &mut g, n, gp, twi, cvt, sto, true);
+            sp.glyph = Some(g);
+        }
+        4 | 5 => {
+            let mut p = vec![];
+            let n = 1 + rng.below(9) as usize;
+            gen_data_block(rng, &mut p, n, twi, 0, cvt, sto, false);
+            sp.prep = p;
+        }
+        6 => {
+            let n = 1 + rng.below(6) as usize;
+            gen_data_block(rng, &mut sp.fpgm, n, twi, 0, cvt, sto, false);
+            let mut p = vec![];
+            let n = rng.below(6) as usize;
+            gen_data_block(rng, &mut p, n, twi, 0, cvt, sto, false);
+            sp.prep = p;
+        }
+        7 | 8 => {
+            // state written by prep (storage, cvt, delta base / shift, INSTCTRL) and read by the glyph program
+            let mut p = vec![];
+            for _ in 0..1 + rng.below(3) {
+                match rng.below(6) {
+                    0 => {
+                        push_val(&mut p, point_ix(rng, sto));
+                        push_val(&mut p, small(rng));
+                        p.push(0x42);
+                    }
+                    1 => {
+                        push_val(&mut p, point_ix(rng, cvt));
+                        push_val(&mut p, small(rng));
+                        p.push(*rng.pick(&[0x44u8, 0x70]));
+                    }
+                    2 => {
+                        push_val(&mut p, *rng.pick(&[0, 1, 2, 4, 2]));
+                        push_val(&mut p, *rng.pick(&[1, 2, 3, 2]));
+                        p.push(0x8E);
+                    }
+                    3 => {
+                        push_val(&mut p, *rng.pick(&[7, 9, 0, 25]));
+                        p.push(0x5E);
+                    }
+                    4 => {
+                        push_val(&mut p, *rng.pick(&[0, 3, 6, 2]));
+                        p.push(0x5F);
+                    }
+                    _ => gen_data_block(rng, &mut p, 1, twi, 0, cvt, sto, false),
+                }
+            }
+            sp.prep = p;
+            let mut g = vec![];
+            let n = 1 + rng.below(7) as usize;
+            gen_data_block(rng, &mut g, n, gp, twi, cvt, sto, true);
+            sp.glyph = Some(g);
+        }
+        _ => {
+            // mixed with control flow
+            let mut g = vec![];
+            gen_data_block(rng, &mut g, 3, gp, twi, cvt, sto, true);
+            gen_block(rng, &mut g, 3, 0, &keys, false);
+            gen_data_block(rng, &mut g, 3, gp, twi, cvt, sto, true);
+            sp.glyph = Some(g);
+        }
+    }
+    sp
+}
+
 fn synth_line(cmd: &str, sp: &Synth) -> String {
     format!(
         "{cmd} {} {} {} {} {} {} {} {} {} {}",
@@ -1034,12 +1686,15 @@ fn model_req(sp: &Synth) -> String {
     let lim_g = ((sp.n_pts.max(3) as u64 + 4) * 10).max(50) + (sp.n_cvt as u64 / 10).max(50);
     let cap = (sp.max_stack as u64 + 32).min(65535);
     format!(
-        "interp {lim_fc} {lim_g} {cap} {} {} {} {} {} {} {} {}",
+        "interp {lim_fc} {lim_g} {cap} {} {} {} {} {} {} {} {} {} {}",
         sp.n_funcs,
         sp.n_idefs,
         sp.n_pts.max(3),
         sp.max_twilight.saturating_add(4),
         sp.n_cvt,
+        sp.max_storage,
+        // 16 ppem at 1000 units per em: `F26Dot6(16 * 64) / F26Dot6(1000)` = 67109
+        67109,
         hex(&sp.fpgm),
         hex(&sp.prep),
         sp.glyph.as_ref().map(|g| hex(g)).unwrap_or_else(|| "none".into())
@@ -2425,6 +3080,10 @@ fn run(cfg: &Config, s: &mut Session) {
     for i in 0..n_loops {
         cases.push(gen_loop_case(&mut rng, i));
     }
+    let n_data = if thorough { 60000 } else { 6000 };
+    for i in 0..n_data {
+        cases.push(gen_data_case(&mut rng, i));
+    }
     let jobs: Vec<String> = cases.iter().map(|sp| synth_line("interp", sp)).collect();
     let res = run_jobs(&jobs, cap, nworkers);
     // The model names the cases whose execution leaves the modelled opcode subset (a jump landed inside an
@@ -2443,12 +3102,30 @@ fn run(cfg: &Config, s: &mut Session) {
         } else {
             r.split(':').take(3).collect::<Vec<_>>().join(":")
         };
+        let fam = if i < n_interp {
+            "interp"
+        } else if i < n_interp + n_loops {
+            "interp-loops"
+        } else {
+            "interp-data"
+        };
         if model_pre.get(i).map(|m| m.contains(":err:Data")).unwrap_or(false) {
-            s.count(if i < n_interp { "interp-outside-subset(not compared)" } else { "interp-loops-outside-subset(not compared)" });
+            s.count(&format!("{fam}-outside-subset(not compared)"));
             continue;
         }
-        s.count(&format!("{}:{class}", if i < n_interp { "interp" } else { "interp-loops" }));
+        // the model stopped because a value computed from point coordinates stayed live (GC / MD result used,
+        // vectors set from points): the rest of the run is not modelled
+        if model_pre.get(i).map(|m| m == "tainted").unwrap_or(false) {
+            s.count(&format!("{fam}-abstract-value-live(not compared)"));
+            continue;
+        }
+        s.count(&format!("{fam}:{class}"));
         s.case("interp", model_req(sp), r.clone());
+    }
+
+    // development aid: `C02_ONLY=interp` stops after the interpreter correspondence
+    if std::env::var("C02_ONLY").map(|v| v == "interp").unwrap_or(false) {
+        return;
     }
 
     // ---- 1b. composite graphs: correspondence with Model/Composite.lean + oracles
@@ -2463,7 +3140,11 @@ fn run(cfg: &Config, s: &mut Session) {
             s.count("composite:must-fail");
             s.oracle("composite-cycle-or-depth-over-32-is-absent", r == "none", || j.clone(), || r.clone());
         }
-        s.count(&format!("composite:{}", if r == "none" { "none" } else { r.split_whitespace().last().unwrap_or("?") }));
+        s.count(&format!("composite:{}", if r == "none" { "none" } else { r.split_whitespace().find(|t| t.starts_with("draw=")).unwrap_or("?") }));
+        if let Some(m) = r.split_whitespace().find(|t| t.starts_with("mem=")) {
+            s.oracle("draw-with-advertised-memory-is-not-insufficient", m.as_bytes().get(4) == Some(&b'1'), || j.clone(), || r.clone());
+            s.oracle("draw-with-less-than-payload-is-insufficient-memory", m.as_bytes().get(5) == Some(&b'1'), || j.clone(), || r.clone());
+        }
         // the model answers everything up to the draw classes
         let head = r.split(" draw=").next().unwrap_or("").to_string();
         s.case("composite", j.clone(), head);
